@@ -288,6 +288,9 @@ func (s *Stream) Close() error {
 		// not halfClosed: that state means "the peer closed" and would make the deferred
 		// close() skip the peer notification and OnLocalClose
 		atomic.CompareAndSwapUint32(&s.state, uint32(streamOpened), uint32(streamClosing))
+		// the callback may be blocked in a read on this stream: wake it, otherwise the
+		// deferred close (and whoever waits for the callback to finish) waits as long as the read does
+		s.safeCloseNotify()
 		return nil
 	}
 
